@@ -4,6 +4,7 @@ package main
 // Arithmetic in contracts is mathematical (unbounded Int): no wrap, ever.
 
 import (
+	"go/token"
 	"fmt"
 	"go/constant"
 	"go/types"
@@ -97,6 +98,14 @@ func (e *Env) ssaVal(v ssa.Value) string {
 	return e.g.val(v)
 }
 
+// sameVar: the value v is a load from the cell a (so both DebugRefs denote one source variable)
+func sameVar(a, v ssa.Value) bool {
+	if u, ok := v.(*ssa.UnOp); ok && u.Op == token.MUL && u.X == a {
+		return true
+	}
+	return false
+}
+
 func (e *Env) ident(name string) (TV, error) {
 	g := e.g
 	if tv, ok := e.vars[name]; ok {
@@ -132,6 +141,37 @@ func (e *Env) ident(name string) (TV, error) {
 			if r.blk == e.point || r.blk.Dominates(e.point) {
 				if best == nil || r.seq > best.seq {
 					best = r
+				}
+			}
+		}
+		if best != nil && !best.isAddr && e.fn != nil {
+			// (named results and other variables that live in a cell appear as `new T (name)`)
+			var cell *ssa.Alloc
+			n := 0
+			for _, b := range e.fn.Blocks {
+				for _, in := range b.Instrs {
+					if a, ok := in.(*ssa.Alloc); ok && a.Comment == name {
+						cell = a
+						n++
+					}
+				}
+			}
+			if n == 1 && (cell.Block() == e.point || cell.Block().Dominates(e.point)) {
+				l := g.locOf(cell)
+				return TV{g.loadIn(e.st, l), l.ty}, nil
+			}
+		}
+		if best != nil && !best.isAddr {
+			// the variable lives in a memory cell (captured by a literal, address taken, named
+			// result written by a deferred literal): its value NOW is the content of that cell in
+			// the state the expression is evaluated in, not what the last load happened to see
+			for i := range g.names[name] {
+				r := &g.names[name][i]
+				if r.isAddr && r.seq < e.seqMax && (r.blk == e.point || r.blk.Dominates(e.point)) {
+					if _, isAlloc := r.val.(*ssa.Alloc); isAlloc && sameVar(r.val, best.val) {
+						best = r
+						break
+					}
 				}
 			}
 		}
